@@ -3,7 +3,7 @@ import ast
 
 from .. import poly
 from ..poly import Poly
-from ..interp import Arr, Pose, Quot, Wrapped, sym_pose, sym_vec, PI, SignFacts, Interp
+from ..interp import Arr, Pose, Quot, Wrapped, sym_pose, sym_vec, PI, SignFacts, Interp, PathRaise, ga
 from ..algebra import run_obligation, run_tasks, record, ObFail, require_same, nterms, delta_vec, ref_R_t
 from .c09 import qnorm_le_one_hook
 
@@ -43,6 +43,33 @@ def se2_wrapped_obligation(opname):
         if opname == "constructor":
             t = poly.register_angle("t")
             res, exp = it.construct("PoseSE2", [sym_vec("x", 2), t]), t
+        elif opname == "constructor[defaults]":
+            # every shorter call form the signature admits: trailing parameters with defaults left out, the first argument
+            # then carries the whole array
+            full = sym_vec("x", 3)
+            full.data[2] = poly.register_angle("t")
+            try:
+                res, exp = it.construct("PoseSE2", [full]), full.data[2]
+            except PathRaise as e:
+                if "TypeError" in str(e.exc):
+                    return dict(op=opname, form="not admitted by the signature")
+                raise
+        elif opname.startswith("file:"):
+            from .c13 import read_line
+            from .c14 import tokens, make_line
+            from ..g2o import VOCABULARY, mark_int
+            tag = opname[5:]
+            spec = VOCABULARY[tag]
+            kind = spec[0]
+            nid = {"vertex": 1, "odometry": 2}.get(kind, 1)
+            ntok = nid + 3 + (6 if kind == "odometry" else 0)
+            vals = tokens(it, "t", ntok)
+            mark_int(it, *vals[:nid])
+            poly.register_angle("t%d" % (nid + 2))
+            line = make_line(it, tag, vals, " ", "\n")
+            _, obj = read_line(it, line, {} if kind == "odometry" else None)
+            res = ga(obj, {"vertex": "pose", "odometry": "estimate"}.get(kind, "value"), None)
+            exp = vals[nid + 2]
         elif opname == "identity":
             res, exp = it.call_method(a, "identity", []), Poly()
         elif opname == "copy":
@@ -128,17 +155,26 @@ def normalize_obligation():
             if not isinstance(a.data[i], Poly) or a.data[i] != orig[i]:
                 raise ObFail("normalize() changes position component %d" % i)
         q = a.data[3:]
-        if not all(isinstance(x, Quot) for x in q):
-            raise ObFail("normalize() does not divide the quaternion by its norm (components: %r)" % ([type(x).__name__ for x in q],))
         nq = n2(orig[3:])
         natom = poly.atom("norm", nq)
+
+        def parts(x):
+            # a component is a quotient num/den, or a plain value (den = 1: e.g. an early return where the divisor is exactly 1)
+            if isinstance(x, Quot) and isinstance(x.num, Poly) and isinstance(x.den, Poly):
+                return x.num, x.den
+            if isinstance(x, Poly):
+                return x, Poly.const(1)
+            return None
+        pq = [parts(x) for x in q]
+        if any(x is None for x in pq):
+            raise ObFail("normalize() leaves quaternion components that are not numbers (%r)" % ([type(x).__name__ for x in q],))
         sigma = None
         for s_ in (1, -1):
-            # result_i = q_i / (sigma * |q|)   <=>   num_i * sigma * |q| == q_i * den_i   for every component
-            if all(isinstance(x.num, Poly) and isinstance(x.den, Poly) and x.num * natom.scale(s_) == orig[3 + i] * x.den for i, x in enumerate(q)):
+            # result_i = q_i / (sigma * |q|)   <=>   num_i * sigma * |q| == q_i * den_i   for every component (on this path)
+            if all(num * natom.scale(s_) == orig[3 + i] * den for i, (num, den) in enumerate(pq)):
                 sigma = s_
         if sigma is None:
-            raise ObFail("normalize() does not map q to +-q/|q| (first component: (%s)/(%s))" % (q[0].num.short(60), q[0].den.short(60)))
+            raise ObFail("normalize() does not map q to +-q/|q| (first component: (%s)/(%s))" % (pq[0][0].short(60), pq[0][1].short(60)))
         # sign of the scalar part: sigma * q_w >= 0 must be implied by the path condition
         key, orient = SignFacts.canon(orig[6])
         remaining = it.facts.get(key, {-1, 0, 1})
@@ -210,6 +246,8 @@ def run(run_, pkg, tier):
     ops2 = ["constructor", "identity", "copy", "inverse", "oplus", "boxplus", "iadd", "ominus"]
     if pkg.lookup("PoseSE2", "from_matrix"):
         ops2.append("from_matrix")
+    from ..g2o import VOCABULARY
+    ops2 += ["constructor[defaults]"] + ["file:" + t for t, spec in sorted(VOCABULARY.items()) if spec[1] == "PoseSE2" and spec[0] in ("vertex", "odometry", "param")]
     for op in ops2:
         cand.append(("PoseSE2/%s/wrapped" % op, "C11-W1-angle-wrapped", se2_wrapped_obligation(op), "%s:%d" % (se2._gs_module, se2.lineno)))
     for op in ["oplus", "ominus", "inverse", "copy", "boxplus", "iadd", "identity"]:
@@ -219,7 +257,7 @@ def run(run_, pkg, tier):
     for c in cand:
         if run_.wants(c[0]):
             tasks.append(c)
-    run_.floor("manifold-invariant obligations", len(tasks) if run_.only is None else 18, 18)
+    run_.floor("manifold-invariant obligations", len(tasks) if run_.only is None else 22, 22)
     record(run_, tasks, run_tasks(pkg, tasks))
     if run_.only is None:
         structural_view_rule(run_, pkg)
